@@ -30,7 +30,10 @@ if SCRATCH_TREE:
     _src = COQ
     COQ = os.path.join(BUILD, "coq-scratch-%d" % os.getpid())
     os.makedirs(BUILD, exist_ok=True)
-    subprocess.run(["rsync", "-a", "--delete", _src + "/", COQ + "/"], check=True)
+    # copy under the main build lock: never snapshot a tree that another check is compiling
+    with open(os.path.join(BUILD, ".lock"), "w") as _lk:
+        fcntl.flock(_lk, fcntl.LOCK_EX)
+        subprocess.run(["rsync", "-a", "--delete", _src + "/", COQ + "/"], check=True)
     _atexit.register(lambda: shutil.rmtree(COQ, ignore_errors=True))
 NPROC = int(os.environ.get("VERIF_JOBS", "0")) or min(16, os.cpu_count() or 4)
 COQC_TIMEOUT = 600
